@@ -24,6 +24,17 @@ func init() {
 
 func runC36(c *eng.Ctx) {
 
+	// the local sink looks at the target's parent directory on every create (Stat, MkdirAll when it is missing): a
+	// directory removed by an earlier delete event is created again; no path to the file creation skips the look
+	if fn := c.NeedFunc("weed/replication/sink/localsink", "(*LocalSink).CreateEntry"); fn != nil {
+		opens := eng.Find(fn, eng.PlainCallTo("os.OpenFile", "os.Create"))
+		stat := eng.PlainCallTo("os.Stat", "os.MkdirAll")
+		if len(opens) == 0 {
+			c.Undecided("PARAM-sink", eng.FuncName(fn)+" parent-directory", fn.Pos(), "file creation not found")
+		}
+		c.Before("PARAM-sink", "parent-directory-ensured-on-every-create", fn, stat, opens, "the parent directory is examined (and created when missing) before every file creation")
+	}
+
 	// FIELDS-origin: everything a filer sink applies to the target filer is marked as coming from another cluster and
 	// carries the signatures of the event (the filers it already passed through): the opposite direction of an
 	// active-active sync recognises its own changes by them. Create, update and delete must all forward both.
